@@ -27,6 +27,11 @@ THEOREMS = [
     'IblVerif.C03.meta_roundtrip_fields',
     'IblVerif.C03.reconstruct_meta_id',
     'IblVerif.C03.meta_subset_all_counterexample',
+    'IblVerif.C03.ap_steps_write_every_row',
+    'IblVerif.C03.prepare_folders_spec',
+    'IblVerif.C03.subset_string_has_colon',
+    'IblVerif.C03.shank_subset_has_colon',
+    'IblVerif.C03.subset_single_bare_counterexample',
 ]
 RULE = ('a case = (recording length ns, window nwindow, imAiRangeMax/imMaxInt pair, probe type + map key, assignment of the 384 '
         'channels to shank numbers, sample data). ns/nwindow are boundary-biased (ns < window, = window, window+1, last window '
@@ -45,7 +50,12 @@ RULE = ('a case = (recording length ns, window nwindow, imAiRangeMax/imMaxInt pa
         'helpers and _ind2save in the sweeps are called twice on the same argument objects. Whether inputs were modified is recorded '
         'as a tag only. For two cases in three the FORM of the call is drawn independently of the values (FORM_TEXT: str/Path, '
         'positional/keyword, nwindow as int / float / numpy scalar, .bin or multi-chunk .cbin original); a quarter of the recordings hold '
-        'only -32768 / 32767 on every AP column and on the sync column. non-trivial = the conversion succeeds (>= 2 windows for the sweep); distinct by the whole case description')
+        'only -32768 / 32767 on every AP column and on the sync column. Round h: on every converted recording the folder set-up of the real converter '
+        '(shank_info order, key number, folder letter, column list of each shank) is compared with Split.prepAll, and the AP half of the window loop '
+        'is observed call by call (_ind2save / _split2shanks wrapped on the instance: window number, rows and columns handed in, ratio, rows kept, rows appended, order) '
+        'and compared with Split.apSteps / apAppended (skipped, tagged loop-steps:unobserved, when the methods do not exist); the TEXT of the saved-channel subset '
+        '(string, presence of a colon, what _get_chans reads from it, and for >= 2 channels what it reads after write_meta_data / read_meta_data) on single channels, pairs, '
+        'all-isolated lists, runs ending at 383 with and without the sync index, lists without sync, the whole probe. non-trivial = the conversion succeeds (>= 2 windows for the sweep); distinct by the whole case description')
 ASSUMPTIONS = [
     'input forms: every form in FORM_TEXT is accepted by the unchanged code and gives the same files; nwindow floats are integer-valued (the API converts with int()); positional NP2Converter calls pass delete_original=False, compress=False (equal values, so a swap of just these two parameters is not observable)',
     'C03 does not state that inputs are left untouched or that results do not alias internal buffers: argument bit-identity is recorded as a tag (inputs:untouched / inputs:modified), only wrong RESULTS of a call sequence on the same objects are reported; replays are judged in a fresh interpreter',
@@ -55,24 +65,35 @@ ASSUMPTIONS = [
     'ns >= 3 so that fileTimeSecs >= 1e-4 is written positionally (C09 finding F12 otherwise)',
     'the original metadata describe the file: acqApLfSy[0] = snsApLfSy[0] = 384, nSavedChans = 385, fileSizeBytes = the size, snsSaveChanSubset = 0:384; an original with snsSaveChanSubset=all comes back as 0:384 (finding save-subset-all: excluded from the generator, hypothesis h5 of the metadata theorems, demonstrated by known_findings)',
     'metadata are compared as parsed by spikeglx.read_meta_data (like the repository test), values canonicalised to their written form; line order is not compared',
+    'the channel list written for a shank has two or more members (>= 1 channel of the shank + 1 sync column): a one-member list (recording saved without sync word AND a one-channel shank) is rendered as a bare number that read_meta_data re-reads as a float and _get_chans cannot split — outside the 384 + 1 layout, excluded from the via-meta comparison, stated by subset_single_bare_counterexample, demonstrated by known_findings()["single-channel-subset-bare"], reported as an informational note',
+    'the call-by-call observation of the window loop wraps _ind2save / _split2shanks on the converter instance; a rewrite that removes these methods is not an alarm (the comparison is skipped), the byte comparison of the files still decides',
     'float32 rounding is the IEEE standard model |delta| <= 2^-24 without under/overflow (true for the SpikeGLX gains, checked bit for bit against NumPy on all int16 values x 9 gain pairs each run)',
 ]
 TRUSTED = [
     'np.rint / astype(float32) / astype(int16) / float32 * and / are IEEE operations equal to Lean Float32 ones (compared bit for bit each run)',
-    'rendering of channel-subset tokens to "a:b,c" text and int()/split parsing of it (driver; the token-level inverse law is proved)',
+    'int()/split(",")/split(":") parsing of the channel-subset text (the rendering is now in the model, Split.renderToks, and compared with the real string; the inverse law is proved on tokens, the presence of a colon on the text)',
+    'the translator harness/pyfn2lean.py and the event patterns / per-item assumptions of harness/tiespecs/c03.py (which statements of the source are read as which event)',
     'write_meta_data / read_meta_data round trip of the untouched keys (C09)',
 ]
 LEVEL_TEXT = ('Lean 4 theorems for every recording length, every window above the overlap, every channel-to-shank assignment and every '
               'sample matrix: written rows = 0..ns-1 once and in order; each shank file = the original columns of that shank then sync '
               '(given the sample codec is the identity on int16); reconstruction of the split = the original frames; channel-subset '
-              'print/parse inverse; metadata round trip except original_meta. Codec identity: real-analysis theorem in the standard '
+              'print/parse inverse; the subset text of every shank file contains a colon (two or more channels; the single-channel class is the exact exception, '
+              'with a counterexample theorem); the window loop in the order of the source appends every sample once; folder letters increase with the shank '
+              'number; metadata round trip except original_meta. Translator tie (regenerated from the source each run): _ind2save, init_params, one iteration of '
+              '_writemetadata_ap and of _prepare_files_NP24, the AP event sequence of _process_NP24 over WindowGenerator.firstlast, NP2Reconstructor.process / '
+              'get_params / write_metadata, the arange bounds of _get_chans = the model definitions, for all arguments. Codec identity: real-analysis theorem in the standard '
               'model of float32 rounding for every gain, plus bit-exact execution against NumPy on all int16 values x 9 gains.')
 LEVEL_NOTE = ('partial on one link: "float32 scale/unscale + rint is the identity on int16" is proved over the reals in the standard rounding '
-              'model (every gain) and checked bit for bit by execution, not proved about IEEE bit patterns; string rendering/parsing of the '
-              'subset and the .meta text round trip are trusted (driver / C09)')
+              'model (every gain) and checked bit for bit by execution, not proved about IEEE bit patterns; parsing of the subset text '
+              '(split / int) and the .meta text round trip are trusted (C09) and compared numerically (subset-via-meta). Only numeric / not tied by the translator: '
+              'NP2Reconstructor._reconstruct (inner loop over an opaque dict: column scatter, sync from the first folder) and _get_savedChans_subset (NumPy run '
+              'detection inside a comprehension) are hand-modelled and compared byte for byte / string for string; _split2shanks, extract_lfp, the LF half and '
+              'check_NP24 are not in the tie; that wg.iw equals the position of the window is read off the generator (C17 tie), not re-proved here')
 TECHNIQUE = ('Lean 4 proofs by functional induction over the window loop, list/array lemmas for column selection and scatter, Mathlib '
-             'real arithmetic for the rounding bound, kernel-evaluated Float32 witnesses; byte-exact differential run of the real '
-             'converter/reconstructor against the model')
+             'real arithmetic for the rounding bound, kernel-evaluated Float32 witnesses; source-to-Lean translation of the integer / decision / '
+             'event-order skeleton of the anchored functions with theorems translated = model re-checked on every run; byte-exact differential run of the real '
+             'converter/reconstructor against the model, incl. call-by-call observation of the window loop and of the folder set-up')
 
 GAINS = [(0.5, 8192), (0.62, 2048), (0.6, 512), (0.62, 8192), (0.5, 512), (0.6, 8192), (0.6, 2048), (0.5, 2048), (0.62, 512)]
 FS = 29999.757983
@@ -242,6 +263,84 @@ def _interleave(bin_file):
         pass
 
 
+def _hook_loop(conv):
+    """observe the AP half of the window loop of the real converter: every `_ind2save(..., etype='ap')` (window number, rows and
+    columns of the chunk it is handed, rows it keeps) and every `_split2shanks(..., etype='ap')` (rows appended), in call order.
+    The two methods are wrapped on the instance; when the converter does not have them (a rewrite) nothing is observed and the
+    comparison is skipped."""
+    trace = []
+    i2s, s2s = getattr(conv, '_ind2save', None), getattr(conv, '_split2shanks', None)
+    if not (callable(i2s) and callable(s2s)):
+        return None
+
+    def ind2save(*args, **k):      # transparent: whatever the call looks like, it is passed on unchanged
+        out = i2s(*args, **k)
+        try:
+            chunk, chunk_sync, wg = args[0], args[1], args[2]
+            a = args[3:]
+            if k.get('etype', a[1] if len(a) > 1 else 'ap') == 'ap':
+                trace.append(('keep', int(wg.iw), int(chunk.shape[1]), int(chunk.shape[0]), int(chunk_sync.shape[0]),
+                              int(k.get('ratio', a[0] if a else 1)), int(out.shape[0])))
+        except Exception:   # noqa
+            trace.append(('unobserved',))
+        return out
+
+    def split2shanks(*args, **k):
+        try:
+            chunk, a = args[0], args[1:]
+            if k.get('etype', a[0] if a else 'ap') == 'ap':
+                trace.append(('append', int(chunk.shape[0]), int(chunk.shape[1])))
+        except Exception:   # noqa
+            trace.append(('unobserved',))
+        return s2s(*args, **k)
+    try:
+        conv._ind2save, conv._split2shanks = ind2save, split2shanks
+    except Exception:   # noqa
+        return None
+    return trace
+
+
+def _prep_of(conv):
+    """what `_prepare_files_NP24` set up: per entry of shank_info (in its order) the key number, the folder letter, the columns"""
+    try:
+        out = []
+        for key, si in conv.shank_info.items():
+            out.append(f'key={int(str(key)[len("shank"):])} letter={ord(Path(si["ap_file"]).parent.name[len("probe00"):][0])} '
+                       f'chns={",".join(str(int(c)) for c in si["chns"])}')
+        return 'ok ' + ' ;; '.join(out)
+    except Exception:   # noqa
+        return None
+
+
+def _canon_trace(trace):
+    """observed keep / append calls -> the canonical line compared with the model's `steps` answer"""
+    wins, n, order, cols = [], 0, 'keep-append', set()
+    i = 0
+    while i < len(trace):
+        t = trace[i]
+        if t[0] != 'keep' or i + 1 >= len(trace) or trace[i + 1][0] != 'append' or trace[i + 1][1] != t[6]:
+            order = f'unexpected call order at {i}: {trace[i:i + 2]}'
+            break
+        wins.append(f'{t[1]}:{t[2]}:{t[6]}')
+        cols.add((t[3], t[4], t[5], trace[i + 1][2]))
+        n += t[6]
+        i += 2
+    return f'n={n} win={",".join(wins)} cols={sorted(cols)} order={order}'
+
+
+def _canon_steps(ans):
+    """the model's `steps` answer in the same form (napch AP columns, nc - isync sync columns, ratio 1, appended width nc)"""
+    if not ans.startswith('ok'):
+        return ans
+    f = dict(x.split('=', 1) for x in ans.split(' ')[1:])
+    wins = [w.split(':') for w in f['win'].split(',')]
+    reads = [r.split(':') for r in f['reads'].split(',')]
+    same_rows = all(a[1:3] == b[1:3] == w[1:3] for a, b, w in zip(reads[0::2], reads[1::2], wins)) and len(reads) == 2 * len(wins)
+    cols = sorted({(int(a[3]), NC - int(b[3]), 1, NC) for a, b in zip(reads[0::2], reads[1::2])})
+    return (f'n={f["n"]} win={",".join(f"{w[0]}:{int(w[2]) - int(w[1])}:{w[3]}" for w in wins)} cols={cols} '
+            f'order={"keep-append" if same_rows else "model reads differ between AP and sync"}')
+
+
 FORM_TEXT = ('form: path = ap_file / raw_ephys_path given as str or pathlib.Path; spelling = options by keyword or positionally in the '
              'signature order NP2Converter(ap_file, post_check, delete_original, compress), init_params(nsamples, nwindow, extra, nshank), '
              'process(overwrite), NP2Reconstructor(raw_ephys_path, pname, compress); nwindow = the same window size as Python int, '
@@ -345,7 +444,9 @@ def run_real(case, data, smap, reconstruct=True):
                 _interleave(bin_file)
                 inputs_untouched('unrelated library calls')
             init_params(conv, case['nwindow'])
+            res['loop_trace'] = _hook_loop(conv)
             res['status'] = (conv.process(True) if pos else conv.process(overwrite=True)) if stateful else conv.process()
+            res['prep'] = _prep_of(conv)
             inputs_untouched(f'process({"overwrite=True" if stateful else ""}) with nwindow={case["nwindow"]}')
         except Exception as e:   # noqa
             res['split_error'] = type(e).__name__
@@ -670,6 +771,68 @@ def _small_ops(ctx):
                     nontrivial=True, tags=('subset', 'groups>=3' if a.count(',') >= 5 else 'groups<3'))
 
 
+def _subset_text(ctx):
+    """the TEXT of the saved-channel subset (`_get_savedChans_subset`) on the shapes where its branches meet: one channel, two
+    channels, all isolated, runs ending at 383 with / without the sync index, the whole probe; compared: the string, whether it
+    contains ':', what `_get_chans` reads back from it, and (two or more channels = every list the converter writes) what
+    `_get_chans` reads after the string went through write_meta_data / read_meta_data."""
+    import neuropixel
+    import spikeglx
+    rng = ctx.rng
+    rec = neuropixel.NP2Reconstructor.__new__(neuropixel.NP2Reconstructor)
+    lists = [[c] for c in (0, 1, 5, 383, 384)] + [[0, 1], [0, 2], [5, 384], [383, 384], [382, 383], [0, 384], list(range(385)),
+             list(range(0, 384, 2)) + [384], list(range(1, 384, 2)) + [384], list(range(0, 384, 2)), [1, 3, 5, 384], [382, 383, 384],
+             list(range(96, 192)) + [384], list(range(288, 384)) + [384], list(range(288, 384))]
+    for _ in range(ctx.n(150, 1500)):
+        kind = str(rng.choice(['single', 'pair', 'isolated', 'tail383', 'nosync', 'random']))
+        if kind == 'single':
+            ch = [int(rng.integers(0, 385))]
+        elif kind == 'pair':
+            a = int(rng.integers(0, 384))
+            ch = [a, int(rng.choice([a + 1, 384, int(rng.integers(a + 1, 385))]))]
+        elif kind == 'isolated':
+            ch = sorted(int(c) for c in rng.choice(np.arange(0, 384, 2), size=int(rng.integers(2, 40)), replace=False)) + [384]
+        elif kind == 'tail383':
+            a = int(rng.integers(300, 384))
+            ch = sorted(set(int(c) for c in rng.choice(a, size=int(rng.integers(0, 6)), replace=False))) + list(range(a, 384)) + [384]
+        elif kind == 'nosync':
+            ch = sorted(int(c) for c in rng.choice(384, size=int(rng.integers(2, 30)), replace=False))
+        else:
+            ch = sorted(int(c) for c in rng.choice(384, size=int(rng.integers(1, 384)), replace=False)) + [384]
+        lists.append(sorted(set(ch)))
+    tmp = tempfile.mkdtemp(prefix='c03_')
+    impl, via = [], []
+    try:
+        for ch in lists:
+            try:
+                s = spikeglx._get_savedChans_subset(np.array(ch))
+                back = np.atleast_1d(rec._get_chans({'snsSaveChanSubset_orig': s})).tolist()
+                impl.append(f'ok {s} colon={int(":" in s)} ' + ','.join(map(str, back)))
+            except Exception as e:   # noqa
+                impl.append('err ' + type(e).__name__)
+                via.append(None)
+                continue
+            try:        # through the .meta text, as the reconstructor meets it
+                f = Path(tmp) / 'x.meta'
+                spikeglx.write_meta_data({'snsSaveChanSubset_orig': s}, f)
+                via.append('ok ' + ','.join(map(str, np.atleast_1d(rec._get_chans(spikeglx.read_meta_data(f))).tolist())))
+            except Exception as e:   # noqa
+                via.append('err ' + type(e).__name__)
+    finally:
+        shutil.rmtree(tmp, ignore_errors=True)
+    single_via = set()
+    for ch, a, v, b in zip(lists, impl, via, ctx.lean(['subsetx ' + ','.join(map(str, ch)) for ch in lists])):
+        d = {'op': 'subset-text', 'chns': ch if len(ch) < 12 else [len(ch), ch[0], ch[-2], ch[-1]]}
+        ctx.compare('subset-text', d, a, b, nontrivial=True, tags=('subset-text', 'subset-text:n=1' if len(ch) == 1 else 'subset-text:n>=2'))
+        if len(ch) >= 2 and v is not None:       # theorem subset_string_has_colon: the parser keeps it a string
+            ctx.compare('subset-via-meta', dict(d, op='subset-via-meta'), v, 'ok ' + b.split(' ')[-1] if b.startswith('ok') else b,
+                        nontrivial=True, tags=('subset-via-meta',))
+        elif v is not None:
+            single_via.add(v.split(' ')[0] + (' ' + v.split(' ')[1] if v.startswith('err') else ''))
+    ctx.note('single-channel subset (bare number, outside the 384+1 layout: theorem subset_single_bare_counterexample) through the '
+             f'.meta text: {sorted(single_via)} — informational, not a demand')
+
+
 def _runs(a):
     if len(a) == 0:
         return '-'
@@ -739,6 +902,7 @@ def correspondence(ctx):
     t0 = time.time()
     ctx.gainlit = ctx.lean(['gainlit'])[0]
     _small_ops(ctx)
+    _subset_text(ctx)
     t1 = time.time()
     _kept_sweep(ctx)
     t2 = time.time()
@@ -761,6 +925,22 @@ def correspondence(ctx):
             ans = fut.result()
             first = parse_model(ans[2], 'none') if case.get('seq') == 'stateful' else None
             compare_case(ctx, case, real, parse_model(ans[-2], ans[-1]), first, data)
+    # the folder set-up and the window loop of the same runs, step by step (Split.prepAll / Split.apSteps)
+    obs = [(case, real) for case, real, _, _ in futs if 'split_error' not in real]
+    lines = []
+    for case, real in obs:
+        lines += [f'chans {NC} 1 ' + ','.join(map(str, make_smap(case['shanks']))), f'steps {case["ns"]} {case["nwindow"]} {NAP} {NAP}']
+    ans = ctx.lean(lines) if lines else []
+    for k, (case, real) in enumerate(obs):
+        desc = _clean(case)
+        if real.get('prep') is not None:
+            ctx.compare('prepare-files', dict(desc, op='prepare-files'), real['prep'], ans[2 * k], nontrivial=True, tags=('prepare-files',))
+        tr = real.get('loop_trace')
+        if tr and not any(t[0] == 'unobserved' for t in tr):
+            ctx.compare('loop-steps', dict(desc, op='loop-steps'), _canon_trace(tr), _canon_steps(ans[2 * k + 1]), nontrivial=len(tr) >= 4,
+                        tags=('loop-steps',))
+        else:
+            ctx.case(dict(desc, op='loop-steps'), nontrivial=False, tags=('loop-steps:unobserved',))
     ctx.note(f'timing: primitives {t1 - t0:.1f}s, kept sweep {t2 - t1:.1f}s, recordings {time.time() - t2:.1f}s')
     ctx.note(f'{len(cases)} recordings split and reconstructed by the real code and by the model; every gain pair saw all 65 536 int16 values')
 
@@ -990,4 +1170,21 @@ def known_findings(ctx):
                 'shanks': {'kind': 'one', 'ids': [0], 'seed': 0}, 'data': {'kind': 'const', 'value': 1, 'sync': 0}}
         r = oracle(case)
         return bool(r) and 'snsSaveChanSubset' in r
-    return {'recording-shorter-than-lf-taper': short_recording, 'save-subset-all': save_subset_all}
+    def single_channel_subset_bare():
+        # a one-member channel list (only possible without a sync column: outside the 384 + 1 layout) is rendered without ':' and
+        # is re-read from the .meta text as a number, which _get_chans cannot split (theorem subset_single_bare_counterexample)
+        import neuropixel
+        import spikeglx
+        tmp = tempfile.mkdtemp(prefix='c03_')
+        try:
+            s = spikeglx._get_savedChans_subset(np.array([5]))
+            spikeglx.write_meta_data({'snsSaveChanSubset_orig': s}, Path(tmp) / 'x.meta')
+            rec = neuropixel.NP2Reconstructor.__new__(neuropixel.NP2Reconstructor)
+            try:
+                return np.atleast_1d(rec._get_chans(spikeglx.read_meta_data(Path(tmp) / 'x.meta'))).tolist() != [5]
+            except Exception:   # noqa
+                return True
+        finally:
+            shutil.rmtree(tmp, ignore_errors=True)
+    return {'recording-shorter-than-lf-taper': short_recording, 'save-subset-all': save_subset_all,
+            'single-channel-subset-bare': single_channel_subset_bare}
